@@ -32,6 +32,7 @@ PIPELINES = [
     [it("vl", inc=[])], [it("wc", exc=[])], [it("wc"), it("vl")], [it("vl"), it("wc")],
     [it("vl", inc=["z"]), it("vl", inc=["y"]), it("vl", inc=["x"])], [it("wc", inc=["y"]), it("vl", exc=["z"]), it("wc")],
     [it("qe", expr="{id}", exc=["x"]), it("wc")],
+    [it("qe", inc=[]), it("vl")], [it("qe", inc=[])], [it("qe", exc=[]), it("wc")], [it("qe", inc=["w"]), it("wc")],
 ]
 VALS_OK = ["1", "2", "u*", "p\\%q", "%y%", "a&b", "", "v\\*w", "\\", ":\"", "q?", 1, 1.5, True, -3, "a/b", "x.y"]
 VALS_BAD = [None, [1], {"a": 1}]
@@ -56,9 +57,9 @@ def rand_value(rng, regex):
     return "".join(out)
 
 def rand_names(rng):
-    k = rng.choice([None, None, 0, 1, 1, 2])
+    k = rng.choice([None, None, 0, 0, 1, 1, 2, 3])
     if k is None: return None
-    return rng.sample(["x", "y", "z", "w"], k)
+    return [rng.choice(["x", "y", "z", "w"]) for _ in range(k)]      # duplicates possible
 
 def rand_item(rng):
     t = rng.choice(["vl", "vl", "vl", "wc", "wc", "qe"])
@@ -143,6 +144,21 @@ def gen(tier, rng):
         out.append(mk(True, ["expand", "contains"], ["%x%"], p, VARSETS[0]))
         out.append(mk(True, ["re", "expand"], ["%x%"], p, VARSETS[0]))
         out.append(mk(True, ["expand"], ["%x%", "%y%"], p, VARSETS[2], all_=True))
+    # 3c. boundary values of include / exclude for all three transformations: absent, empty list (include [] handles
+    #     nothing, exclude [] excludes nothing), unknown names only, duplicates, both given (configuration error);
+    #     placeholder-only values and values with text around; alone and followed by a value-list / wildcard item
+    LISTS = [None, [], ["w"], ["w", "q"], ["x"], ["x", "x"], ["x", "w"], ["y", "x", "y"]]
+    combos = [(i, None) for i in LISTS] + [(None, e) for e in LISTS[1:]] + [([], []), (["x"], []), ([], ["x"]), (["x"], ["y"])]
+    for kind in ("vl", "wc", "qe"):
+        for inc, exc_ in combos:
+            first = it(kind, inc=inc, exc=exc_, expr="{field} lookup {id}" if kind == "qe" else None,
+                       mp={"x": "XL"} if kind == "qe" and inc == ["x", "x"] else None)
+            for follow in ([], [it("vl")], [it("wc")]):
+                for values in (["%x%"], ["a%x%b"], ["%x%", "%y%"], ["%y%"]):
+                    out.append(mk(True, ["expand"], values, [first] + follow, VARSETS[0]))
+                    if quick and rng.random() < 0.5: continue
+                    out.append(mk(False, ["expand"], values, [first] + follow, VARSETS[0]))
+                    out.append(mk(True, ["re", "expand"], values, [first] + follow, VARSETS[0]))
     # 4. random
     for _ in range(1500 if quick else 30000):
         regex = rng.random() < 0.3
@@ -385,8 +401,8 @@ PROPERTY = Property(
                   py_oracle=history_oracle, stratum=history_stratum, shard=120)],
     rule="one detection item (field / keyword / regular expression; expand with contains|startswith|endswith in both orders, all) with 1..3 values "
          "built from literal, wildcard, escaped-wildcard, escaped-percent, lone-percent and %x% %y% %z% blocks: exhaustive up to 2 (quick) / 3 (thorough, sampled at 3) "
-         "blocks, hostile list, random up to 6 blocks; x 22 fixed pipelines (value-list / wildcard / query-expression items with include / exclude, "
-         "both lists, empty lists, every order) and random pipelines of 0..3 items; x variable tables of 0..3 values (strings incl. wildcards, "
+         "blocks, hostile list, random up to 6 blocks; x 26 fixed pipelines (value-list / wildcard / query-expression items with include / exclude, "
+         "both lists, empty lists, unknown names, duplicates - swept for all three transformations on placeholder-only and mixed values, every order) and random pipelines of 0..3 items; x variable tables of 0..3 values (strings incl. wildcards, "
          "escapes, %y% text; int, float, bool; None, list, dict; scalar; missing). Through ProcessingPipeline.from_dict, SigmaRule.from_dict and "
          "Backend.convert_rule of a TextQueryTestBackend subclass with decodable templates and of the stock TextQueryTestBackend. "
          "non-trivial = some source value contains a placeholder; distinct by case hash. Suite history: ONE pipeline object (one instance of every "
